@@ -63,7 +63,7 @@ def Quirks.ofList (l : List String) : Quirks :=
     cseHoistsOverBindings := l.contains "cseHoistsOverBindings"
     retFlatNames := l.contains "retFlatNames"
     formatOutcomeIntPadRight := l.contains "formatOutcomeIntPadRight"
-    djDecodeEqZero := l.contains "djDecodeEqZero" }
+    djDecodeEqZero := l.contains "djDecodeEqZero"
     dimacsAtomCnf := l.contains "dimacsAtomCnf"
     bexpConjoinsIntermediates := l.contains "bexpConjoinsIntermediates"
     nfVarLimit := l.contains "nfVarLimit" }
